@@ -45,3 +45,47 @@ func ZZStatusSwap(n, m int) {
 	}
 	vReach("end")
 }
+
+// ZZStatusSwapRace (C05): the same compare-and-set while an election persists a new term CONCURRENTLY (every lock
+// acquisition of the status resource is a preemption point): the config-change path takes its snapshot, an election
+// goroutine bumps the shard's term (UpdateShardMetadata) at any moment, the stale snapshot is swapped in. Whatever
+// the interleaving, the term the election made durable is never overwritten by the older snapshot — a coordinator
+// that restarts from the store can never issue that term again — and a swap that reports success has stored
+// exactly its status on top of the version it was computed from.
+func ZZStatusSwapRace(n, reps int) {
+	// reps: natively the scenario is repeated (the window between check and store is a few instructions wide)
+	for rep := 0; rep < reps; rep++ {
+		zzStatusSwapRaceOnce(n)
+	}
+	vReach("end")
+}
+
+func zzStatusSwapRaceOnce(n int) {
+	meta := metadata.NewMetadataProviderMemory()
+	r := NewStatusResource(meta)
+	st := &model.ClusterStatus{Namespaces: map[string]model.NamespaceStatus{"a": {ReplicationFactor: 1, Shards: map[int64]model.ShardMetadata{
+		0: {Status: model.ShardStatusSteadyState, Term: 0}}}}, ShardIdGenerator: 1}
+	r.Update(st)
+	for i := 1; i <= n; i++ {
+		r.UpdateShardMetadata("a", 0, model.ShardMetadata{Status: model.ShardStatusElection, Term: int64(i)})
+	}
+	snap, ver := r.LoadWithVersion()
+	stale := snap.Clone()
+	stale.ShardIdGenerator = 7
+	done := make(chan bool, 1)
+	vGo("election", func() {
+		r.UpdateShardMetadata("a", 0, model.ShardMetadata{Status: model.ShardStatusElection, Term: int64(n + 1)})
+		done <- true
+	})
+	ok := r.Swap(stale, ver)
+	<-done
+	stored, _, _ := meta.Get()
+	cur, _ := r.LoadWithVersion()
+	vAssert("term-made-durable-by-the-election-is-never-rolled-back", stored.Namespaces["a"].Shards[0].Term == int64(n+1))
+	vAssert("resource-and-store-agree", cur.Namespaces["a"].Shards[0].Term == stored.Namespaces["a"].Shards[0].Term && cur.ShardIdGenerator == stored.ShardIdGenerator)
+	if ok {
+		vAssert("successful-swap-was-applied-before-the-election's-update", stored.ShardIdGenerator == 7)
+	} else {
+		vAssert("refused-swap-changes-nothing", stored.ShardIdGenerator == 1)
+	}
+}
